@@ -243,6 +243,20 @@ class TU:
                 self.vars[name] = d
                 self.decls.setdefault(name, d)
 
+    def record(self, name):
+        """RecordDecl by tag name; anonymous records are addressed as clang spells them: '(unnamed at file:line:col)'"""
+        r = self.records.get(name)
+        if r is not None or not name.startswith('('):
+            return r
+        if not hasattr(self, '_anon'):
+            self._anon = {}
+            for n in walk(self.root):
+                if n.get('kind') == 'RecordDecl' and not n.get('name') and n.get('_loc') and \
+                        any(c.get('kind') == 'FieldDecl' for c in n.get('inner', [])):
+                    self._anon['%s:%d:%d' % n['_loc']] = n
+        m = re.search(r'at (.+:\d+:\d+)\)', name)
+        return self._anon.get(m.group(1)) if m else None
+
     def desugar(self, qt, depth=0):
         """resolve typedef names anywhere inside a type spelling (clang only desugars the top level)"""
         if depth > 8 or not qt:
